@@ -390,6 +390,102 @@ fn handler_level(r: &mut Report, work: &str, seed: u64, slow: bool) {
     let _ = std::fs::remove_dir_all(&dir);
 }
 
+/// The real server binary with the cache enabled and several virtual hosts whose `directory` routes sit at different
+/// route positions: the same URI is requested on every host, in every order, within the cache time. Each answer must be
+/// that host's own file (the cache key is (host, path) all the way from the configuration to the lookup).
+fn real_server_hosts(r: &mut Report, exe: &str, work: &str, seed: u64, variant: u64) {
+    use std::io::Write;
+    use std::process::{Command, Stdio};
+    let dir = format!("{}/c16/srv-{}-{}-{}", work, std::process::id(), seed, variant);
+    let _ = std::fs::remove_dir_all(&dir);
+    let hosts = ["a.test", "b.test", "c.test", ""];
+    for (i, _) in hosts.iter().enumerate() {
+        for f in ["index.html", "x.txt", "sub/y.txt"] {
+            let p = format!("{}/h{}/{}", dir, i, f);
+            std::fs::create_dir_all(std::path::Path::new(&p).parent().unwrap()).unwrap();
+            std::fs::write(&p, format!("HV16-HOST{}-{}-{}|{}", i, seed, variant, f)).unwrap();
+        }
+    }
+    std::fs::write(format!("{}/only.html", dir), "HV16-ONLY").unwrap();
+    let port = hvcommon::net::free_port("127.0.0.1");
+    // host a: the directory route is its first route; host b: second (after a file route); host c: third; default: first
+    let pre: [&str; 4] = ["", "    route /only-b {\n      file \"{D}/only.html\"\n    }\n", "    route /only-c1 {\n      file \"{D}/only.html\"\n    }\n    route /only-c2 {\n      redirect \"https://example.com/\"\n    }\n", ""];
+    let mut conf = format!("server {{\n  address \"127.0.0.1\"\n  port {}\n  threads 4\n  cache {{\n    size 1M\n    time 60\n  }}\n  log {{\n    level \"error\"\n    console false\n  }}\n", port);
+    let order: Vec<usize> = if variant % 2 == 0 { vec![0, 1, 2] } else { vec![2, 0, 1] };
+    for i in order {
+        conf.push_str(&format!("  host \"{}\" {{\n{}    route /* {{\n      directory \"{}/h{}\"\n    }}\n  }}\n", hosts[i], pre[i].replace("{D}", &dir), dir, i));
+    }
+    conf.push_str(&format!("  route /* {{\n    directory \"{}/h3\"\n  }}\n}}\n", dir));
+    let conf_path = format!("{}/humphrey.conf", dir);
+    std::fs::write(&conf_path, &conf).unwrap();
+    let mut child = match Command::new(exe).arg(&conf_path).current_dir(&dir).stdin(Stdio::null()).stdout(Stdio::null()).stderr(Stdio::null()).spawn() {
+        Ok(c) => c,
+        Err(e) => {
+            r.harness_error(format!("cannot start {}: {}", exe, e));
+            return;
+        }
+    };
+    let addr: std::net::SocketAddr = format!("127.0.0.1:{}", port).parse().unwrap();
+    let t = Instant::now();
+    let mut up = false;
+    while t.elapsed() < Duration::from_secs(10) {
+        if let Ok(Some(_)) = child.try_wait() {
+            break;
+        }
+        if std::net::TcpStream::connect(addr).is_ok() {
+            up = true;
+            break;
+        }
+        std::thread::sleep(Duration::from_millis(5));
+    }
+    if !up {
+        r.inconclusive("the real server did not start for the multi-host cache scenario");
+        let _ = child.kill();
+        let _ = child.wait();
+        return;
+    }
+    let mut rng = Rng::derive(seed, 0x16f0 + variant);
+    let replay = vec!["c16".to_string(), "--seed".into(), seed.to_string()];
+    let mine = format!("-{}-{}|", seed, variant);
+    for round in 0..6 {
+        for uri in ["/x.txt", "/", "/sub/y.txt", "/index.html"] {
+            // a random order of the four hosts (the last one is an unknown name: default host)
+            let mut idx: Vec<usize> = vec![0, 1, 2, 3];
+            for i in (1..idx.len()).rev() {
+                idx.swap(i, rng.usize(i + 1));
+            }
+            for hi in idx {
+                let host_header = if hosts[hi].is_empty() { "unknown.test" } else { hosts[hi] };
+                r.eval();
+                r.count("multi_host_requests", 1);
+                let mut s = match std::net::TcpStream::connect(addr) {
+                    Ok(s) => s,
+                    Err(e) => {
+                        r.inconclusive(format!("multi-host scenario: connect failed: {}", e));
+                        continue;
+                    }
+                };
+                let _ = s.write_all(format!("GET {} HTTP/1.1\r\nHost: {}\r\nConnection: close\r\n\r\n", uri, host_header).as_bytes());
+                let (buf, _) = hvcommon::net::read_to_eof(&mut s, Duration::from_secs(10));
+                let text = String::from_utf8_lossy(&buf).to_string();
+                let want_tag = format!("HV16-HOST{}{}", hi, mine);
+                if text.contains(&want_tag) {
+                    r.count("multi_host_answers_own_file", 1);
+                } else if let Some(other) = (0..4).find(|o| text.contains(&format!("HV16-HOST{}{}", o, mine))) {
+                    r.violation("C16/server:another-hosts-entry", format!("GET {} with Host {} (round {}) was answered with the file of host #{} ({:?}) instead of its own: the cache returned another (host, path) entry's data", uri, host_header, round, other, if hosts[other].is_empty() { "default" } else { hosts[other] }), J::obj(vec![("config", J::s(&conf)), ("uri", J::s(uri)), ("host", J::s(host_header)), ("response_head", J::s(text.chars().take(200).collect::<String>()))]), replay.clone());
+                } else if !text.starts_with("HTTP/1.1 200") {
+                    r.violation("C16/handler:not-served", format!("GET {} with Host {} answered {:?}", uri, host_header, text.chars().take(40).collect::<String>()), J::s(&conf), replay.clone());
+                } else {
+                    r.inconclusive("multi-host scenario: a response without any of this run's tags (foreign server on the port?)");
+                }
+            }
+        }
+    }
+    let _ = child.kill();
+    let _ = child.wait();
+    let _ = std::fs::remove_dir_all(&dir);
+}
+
 pub fn main(args: &Args) {
     let out = args.get("out").expect("--out");
     let seed = args.seed();
@@ -540,12 +636,21 @@ pub fn main(args: &Args) {
                 r.violation(&format!("C16/panic@{}", loc), format!("cache / static handler code panicked at {} during the handler-level scenario with real sleeps: {}", loc, msg), J::Null, vec!["c16".into(), "--handler-level".into(), "1".into(), "--seed".into(), seed.to_string()]);
             }
         }
+        // (f) the real server with several virtual hosts sharing the cache (two configurations)
+        if shard == 2 || shard == 3 {
+            let exe = format!("{}/target-repo/release/humphrey", work2);
+            if std::path::Path::new(&exe).exists() {
+                real_server_hosts(&mut r, &exe, &work2, seed, shard as u64);
+            } else {
+                r.harness_error(format!("server binary {} not built", exe));
+            }
+        }
         r.count("cache_sets", stats.0);
         r.count("cache_gets", stats.1);
         r.count("cache_probes", stats.2);
         r
     });
     let total = Report::merge_all(reports);
-    let rule = format!("(a) every operation sequence of length {} over 24 operations (set x 3 keys x 2 hosts x 3 sizes {{0, limit/2, limit}}, get x 3 keys x 2 hosts) for size limits {{0,1,3,64}} (and 64 KiB on every 61st sequence) x time limits {{0,1,60}}, probing every key ever stored after every operation (so every shorter sequence is covered as a prefix); (b) random sequences of 100..2000 operations over 32 keys x 2 hosts; (c) 1..8 threads through RwLock<Cache> as the handlers use it, unique values, per-key interval check; (d) file_handler/directory_handler with a cache-enabled AppState over files rewritten between requests, with real sleeps past the time limit. non-trivial = at least two stores; distinct = distinct sequences / histories", maxlen);
+    let rule = format!("(a) every operation sequence of length {} over 24 operations (set x 3 keys x 2 hosts x 3 sizes {{0, limit/2, limit}}, get x 3 keys x 2 hosts) for size limits {{0,1,3,64}} (and 64 KiB on every 61st sequence) x time limits {{0,1,60}}, probing every key ever stored after every operation (so every shorter sequence is covered as a prefix); (b) random sequences of 100..2000 operations over 32 keys x 2 hosts; (c) 1..8 threads through RwLock<Cache> as the handlers use it, unique values, per-key interval check; (d) file_handler/directory_handler with a cache-enabled AppState over files rewritten between requests, with real sleeps past the time limit, incl. stores over expired entries; (f) the real server binary with cache on and four virtual hosts whose directory routes sit at different route positions, the same URIs requested on every host in random order. non-trivial = at least two stores; distinct = distinct sequences / histories", maxlen);
     total.write(out, &rule, Some(true), &["a hit's real age is bounded by time limit + 1 s (the cache clock has one-second resolution)", "with time limit 0 an item just stored may or may not be retrievable (the two clauses coincide only at age 0)", "exhaustive refers to part (a)", "stores larger than the size limit are not generated (the handlers never do that and the property quantifies sizes from 0 to the limit)"]);
 }
